@@ -1230,5 +1230,12 @@ func (s *ObjectStorage) DeleteOldObjectPackAndIndex(h plumbing.Hash, t time.Time
 	}
 
 	_ = idx.Close()
+
+	// Objects read from the deleted pack may still sit in the object
+	// cache, lazily bound to the pack file that no longer exists: a
+	// later EncodedObject would hand them out and their Reader() would
+	// fail. The survivors were rewritten into the new pack, so dropping
+	// the cache only costs a re-read.
+	s.objectCache.Clear()
 	return nil
 }
